@@ -413,7 +413,7 @@ func TestP1CMaps(t *testing.T) {
 	rec := ev.New("C07", "cmaps")
 	defer rec.Finish(t)
 	rec.Rule("CMap files in the standard form from an independent serialiser: 1-3 CMaps per file (names may collide or be adjacent); name, CIDSystemInfo strings, supplement, CMapType, WMode 0/1 or absent, optional usecmap, optional missing /CMapName; 0-12 blocks of the seven kinds in any order with 0, 1-6, 20-99 or exactly 100 entries; codes of length 1-4 mixed, with corner bytes, duplicates and shared prefixes; destinations integer / string / name / array of strings and names as the kind allows; hex digit case, white space inside hex strings, comments, CR/LF/CRLF line ends. Oracle: CMapName, system info, type, writing mode, usecmap, and each of the seven tables equal to the file's entries as a multiset and non-decreasing by source code (code-space ranges by length then code); the CMap with the smallest name is returned. Non-trivial: >= 2 blocks and >= 1 block with >= 2 entries; distinct by file bytes.")
-	ev.SetupRapid(12000, 640000)
+	ev.SetupRapid(30000, 1000000)
 	rapid.Check(t, func(t *rapid.T) {
 		n := rapid.IntRange(1, 3).Draw(t, "ncmaps")
 		if rapid.IntRange(0, 2).Draw(t, "single") > 0 {
@@ -456,7 +456,7 @@ func TestP2Faults(t *testing.T) {
 	rec := ev.New("C07", "faults")
 	defer rec.Finish(t)
 	rec.Rule("single-fault variants of generated CMaps: a block declaring (and supplying) 101 entries; bounds of unequal length (all four range kinds); low > high (cidrange, bfrange, notdefrange); destination of the wrong type (string for cid/notdef kinds, integer for bfchar, integer or name for bfrange); declared count larger than the number of entries supplied; begincmap missing. Oracle: ReadCMap returns an error and no dictionary. Every variant is non-trivial; distinct by file bytes.")
-	ev.SetupRapid(6000, 200000)
+	ev.SetupRapid(20000, 400000)
 	rapid.Check(t, func(t *rapid.T) {
 		m := genCMap(t)
 		fault := inject(t, m)
